@@ -513,7 +513,7 @@ pub fn check_stats(out: &mut Out, d: &mut Driver, t: &mut Totals, replay: &dyn F
 
 pub fn run(ctx: &Ctx, out: &mut Out, prop: &str) {
     let mut rng = ctx.rng(&format!("srv-{}", prop));
-    crate::inproc::install_logger(log::LevelFilter::Warn, false);
+    crate::inproc::install_shard_logger(ctx.shard, out);
     if let Some(r) = &ctx.replay {
         replay_history(out, prop, r);
         return;
